@@ -79,11 +79,10 @@ _CC_TUS = ['src/cppparser/cppPreprocessor.cxx', 'src/cppparser/cppFile.cxx', 'sr
 # stub asserts if it were ever reached
 _CUT_HEAP_STRINGS = ['_ZNSt7__cxx1112basic_stringIcSt11char_traitsIcESaIcEE9_M_createERmm',
                      '_ZNSt7__cxx1112basic_stringIcSt11char_traitsIcESaIcEE9_M_mutateEmmPKcm']
-def _cc_tuples(lines, wmax, nmax):
-    """number of width tuples the harness enumerates (same odometer, same filter)"""
-    import itertools
-    return sum(1 for w in itertools.product(range(wmax + 1), repeat=lines) if sum(w) <= nmax)
-def _cc(hid, hflags, desc, domain_extra, lo, hi, tiers=('quick', 'thorough')):
+def _cc(hid, tmin, desc, domain_extra, g_quick=0, g_thorough=4):
+    def _b(gmax, ta, cap):
+        return {'defs': {'P_MAX': 0, 'T_MIN': tmin, 'TA_MAX': ta, 'TB_MAX': 1, 'G_MAX': gmax}, 'unwind': 24,
+                'unwindset': {'_ZN15CPPPreprocessor12skip_commentEi.0': 1}, 'cap': 40}
     return {'id': hid, 'property': 'C05', 'src': 'c05_cpp_comments.cxx', 'entry': 'harness_c05_cpp_comments', 'tus': _CC_TUS,
             'skip_ctors': ['cppPreprocessor.cxx', 'cppFile.cxx', 'filename.cxx'],
             # CPPPreprocessor::get, InputFile::get/peek: copies reading a byte array (in the harness, see there)
@@ -91,22 +90,22 @@ def _cc(hid, hflags, desc, domain_extra, lo, hi, tiers=('quick', 'thorough')):
                                          '_ZN15CPPPreprocessor14skip_c_commentEi',    # never reached: no '*' in the alphabet (asserting stub)
                                          # std::string::_M_replace: see the harness source
                                          '_ZNSt7__cxx1112basic_stringIcSt11char_traitsIcESaIcEE10_M_replaceEmmPKcm'],
-            'models': ['list.c', 'noinline.c'], 'tuflags': ['-fno-inline'], 'hflags': list(hflags), 'tiers': tiers,
+            'models': ['list.c', 'noinline.c'], 'tuflags': ['-fno-inline'],
             'desc': desc,
-            'domain': 'inputs of 3 newline-terminated lines: the line widths are concrete (width tuples %d..%d of the %d tuples with widths 0..4 '
-                      'and at most 8 bytes in total, enumerated by a concrete loop inside the query), the bytes of the lines symbolic over '
-                      '{/ a space}' % (lo, hi - 1, _cc_tuples(3, 4, 8)) + domain_extra + '; read through line-by-line copies of InputFile::get/peek '
-                      '(line and column accounting) over a byte array and lexed by the real skip_comment / skip_cpp_comment, one token per '
-                      'non-blank non-comment byte',
-            'oracle': 'the captured CPPCommentBlocks equal an independent scan of the bytes: a // line continues the previous block iff '
-                      'that block ended on the immediately preceding line and only blanks lie in between, otherwise it starts a new '
-                      'block; number of blocks, text, first and last line and column of every block',
-            'bounds': {'quick': {'defs': {'LINES': 3, 'WMAX': 4, 'NMAX': 8, 'S_FROM': lo, 'S_TO': hi}, 'unwind': 20,
-                                 'unwindset': {'_ZN15CPPPreprocessor12skip_commentEi.0': 1, 'harness_c05_cpp_comments.1': 130}, 'cap': 60}}}
+            'domain': 'inputs <prefix> // <text A> newline <gap> // <text B> newline: prefix of 0..1 bytes over {space a}, texts of ' +
+                      domain_extra + ' bytes over {a space /}, gap of 0..G_MAX bytes over {space newline a} (blank lines, indentation, code between '
+                      'the two comments); the lengths are enumerated by concrete loops inside the query, the bytes are symbolic; read through '
+                      'line-by-line copies of InputFile::get/peek (line and column accounting) over a byte array and lexed by the real '
+                      'skip_comment / skip_cpp_comment, one token per non-blank non-comment byte',
+            'oracle': 'the captured CPPCommentBlocks equal an independent scan of the bytes: the second // line continues the block of the '
+                      'first iff that block ended on the immediately preceding line and only blanks lie in between, otherwise it starts a '
+                      'new block; number of blocks, text, first and last line and column of every block',
+            'bounds': {'quick': _b(g_quick, 1, 300), 'thorough': _b(g_thorough, 3, 2400)}}
 HARNESSES += [
- _cc('c05_cpp_comments_rest', ['-DEXCLUDE_EMPTY_COMMENT'],
-     'capture of // comment blocks (CPPPreprocessor::skip_cpp_comment under the real skip_comment): block boundaries, text and line '
-     'span; without empty // comments', ', no // directly followed by the end of its line', 2, 3),
+ _cc('c05_cpp_comments', 0, 'capture of // comment blocks (CPPPreprocessor::skip_cpp_comment under the real skip_comment): which // lines '
+     'form one block; text, column and line span of every block', '0..TA_MAX / 0..1'),
+ _cc('c05_cpp_comments_rest', 1, 'as c05_cpp_comments without empty // comments (a // directly followed by the end of its line)',
+     '1..TA_MAX / 1'),
 ]
 
 PROPERTY_INFO = {'C05': {'level': 'model_checking',
